@@ -164,12 +164,56 @@ def sub_sweep(ctx):
     ctx.run_given(body, cases(), max_examples=ctx.n(208, 8000), shrink=not ctx.quick)
 
 
+def sub_examples(ctx):
+    """Measured spectra: the shipped akimotoite example (diopside too in the thorough tier) under every interpolator x
+    several orders and fine low-temperature grids; same validity predicates."""
+    from ..datasets import ExampleDataset, write_input01, write_input02, write_settings
+    import os
+    names = ["akimotoite"] + ([] if ctx.quick else ["diopside"])
+    jobs = []
+    for n in names:
+        for m in INTERPOLATORS:
+            orders = [3] if ctx.quick else ([2, 3, 4, 5] if m in ("spline", "lsq_poly") else [2, 3, 4, 6, 7])
+            for o in orders:
+                for grid in (("coarse", 3, 300.0),) if ctx.quick else (("coarse", 3, 300.0), ("lowT", 6, 0.5)):
+                    jobs.append((n, m, o, grid))
+    for j, (name, m, order, (gname, nt, dt)) in enumerate(jobs):
+        if j % ctx.nshards != ctx.shard:
+            continue
+        if ctx.is_excluded("C12/class:interpolator=%s" % m):
+            continue
+        try:
+            ds = ExampleDataset(name)
+        except FileNotFoundError:
+            ctx.stats.skip("example-missing-" + name)
+            continue
+        if order >= ds.nv and m in ("spline", "lsq_poly"):
+            continue
+        ds.spec["interpolator"], ds.spec["order"] = m, order
+        s = {"example": name, "interpolator": m, "order": order, "grid": gname, "nt": nt, "dt": dt, "tmin": 0.0,
+             "explicit_dt_sample": True, "explicit_dp_sample": True, "system": ds.system, "lattice": True, "bm_order": 3, "low_t": gname == "lowT"}
+        try:
+            info = oracle(ctx, s, ds, ds.qha_settings(nt=nt, dt=dt))
+        except PropertyViolation as v:
+            tags = tags_of(s, None)
+            if tags:
+                raise PropertyViolation("C12/class:" + tags[0], v.bucket + ": " + v.message, v.case)
+            raise
+        ctx.case(s, True, classes=["example-" + name, "interp-" + m])
+
+
 def subchecks(ctx):
-    return [("sweep", sub_sweep)]
+    return [("sweep", sub_sweep), ("examples", sub_examples)]
 
 
 def replay(ctx, payload):
     s = payload["case"]
+    if "example" in s:
+        from ..datasets import ExampleDataset
+        ds = ExampleDataset(s["example"])
+        ds.spec["interpolator"], ds.spec["order"] = s["interpolator"], s["order"]
+        oracle(ctx, s, ds, ds.qha_settings(nt=s["nt"], dt=s["dt"]))
+        return
     ds, qs = build(s)
     if qs is None:
         return
